@@ -130,6 +130,11 @@ func findSniExtension(search quicutils.Locator) (d string, err error) {
 			return "", ErrNotApplicable
 		}
 		if typ == TlsExtension_ServerName {
+			if extLength < 2 {
+				// Too short to hold the 2-byte server_name_list length; reading it
+				// would run past the extension (and past the record).
+				return "", ErrNotApplicable
+			}
 			b, err = search.Range(i+4, i+6)
 			if err != nil {
 				return "", err
